@@ -196,6 +196,19 @@ func c05DumpReplays(dir string) {
 			}
 		}
 		dump("native", "typed-map-elem-kind-only-panic", tm)
+		// F21 (rule conf has its own case type)
+		base := c05Typ{K: "struct", F: []c05Fld{
+			{W: []string{"host"}, T: c05Typ{K: "string"}, Tag: "json", KS: "title"},
+			{W: []string{"port"}, T: c05Typ{K: "int"}, Tag: "json", KS: "title", Def: func() *string { d := "80"; return &d }()},
+		}}
+		cc := c05ConfCase{S: []c05Fld{{W: []string{"e"}, T: base, Anon: true, Tag: "json", Opt: true}, {W: []string{"name"}, T: c05Typ{K: "string"}, Tag: "json", KS: "title"}},
+			D: c05Obj(c05KV{K: "Host0", V: c05Str("h")}, c05KV{K: "Port1", V: c05Num("8080")}, c05KV{K: "Name1", V: c05Str("n")})}
+		cc.D2 = cc.D
+		raw, _ := json.Marshal(cc)
+		rf := kit.ReplayFile{Property: "C05", Rule: "conf", Case: raw,
+			Message: "minimal input of finding embedded-optional-raw-key on f973659 (repaired by 787c2c8): " + c05Describe(&c05Case{S: cc.S, D: cc.D})}
+		b, _ := json.MarshalIndent(rf, "", " ")
+		_ = os.WriteFile(filepath.Join(dir, "conf-embedded-optional-raw-key.json"), b, 0o644)
 	}
 	{
 		nd := c05NestedDefaultCase()
